@@ -49,6 +49,17 @@ def gen_cases(rng, tier, scale):
            '{{> p k=v}}', '{{> p2 k=o.k j=arr.[0]}}', '{{> q o}}', '{{#with o}}[{{k}}]{{/with}}', '{{#each arr}}<{{this}}>{{/each}}',
            '{{#each arr as |x i|}}<{{x}}{{i}}>{{/each}}', '{{eq v null}}', '{{#with o as |w|}}{{w.k}}{{/with}}', '{{> p k=null}}',
            '{{#each o}}{{@key}}={{this}};{{/each}}', '{{> (lookup this "pn") k=v}}', '{{#> p k=v}}d{{/p}}', '{{id (lookup o "k")}}']
+    UPV = ['{{#each arr as |x i|}}{{#with @root.o}}{{../i}}{{../x}}{{/with}}{{/each}}', '{{#each (lookup this "arr") as |row|}}{{#with @root.o}}<{{../row}}>{{/with}}{{/each}}',
+           '{{#with (lookup this "o") as |w|}}{{#each @root.arr}}{{../w.k}}{{/each}}{{/with}}', '{{> pu}}',
+           '{{#each o as |val key|}}{{#if true}}{{#with @root.arr}}{{../../key}}={{../../val}}{{/with}}{{/if}}{{/each}}']
+    kk = 0
+    for v in FALSY + ['s']:
+        for pos in UPV:
+            d = {'v': v, 'o': {'k': v}, 'arr': [v, 1], 'pn': 'p'}
+            for st in (0, 1):
+                cases.append(rcase(f'uv{kk}s{st}', 'a' + pos + 'z', d, pre=['probes', f'strict {st}'], entry=0,
+                                   partials={'pu': '{{#each arr as |x i|}}{{#with @root.o}}{{../i}}{{/with}}{{/each}}'}, kind='exist', pair=('uv', kk), strict=st, tags=['up-to-value-bound']))
+            kk += 1
     kk = 0
     for v in FALSY:
         for pos in POS:
